@@ -99,6 +99,11 @@ def check_limit_df(case, rec):
         ks, ke = ke, ks
     start = None if ks is None else ks / fs
     stop = None if ke is None else ke / fs
+    half = bool(case.get('half_sample')) and ks is not None and (ke is None or ke > ks)
+    if half:
+        # a limit halfway between two samples (fs * start = k + 0.5 exactly for the dyadic-friendly rates): which whole offset a
+        # reset uses is then not specified - only that it is ONE offset for every column and row
+        start = (ks + 0.5) / fs
     exact_s = ks is None or (ks / fs) * fs == ks
     exact_e = ke is None or (ke / fs) * fs == ke
     keep = df.copy(deep=True)
@@ -123,6 +128,8 @@ def check_limit_df(case, rec):
         pos = None
         # periodic signals give several consistent (row, offset) pairs: prefer the offset the call is expected to use
         expected = (ks or 0) if case['reset'] else 0
+        if case['reset'] and half:
+            expected = ks + (ks % 2)          # round-half-even of ks + 0.5
         for i in sorted(range(len(cand)), key=lambda i: (abs(cand[i] - expected), i)):
             dlt = cand[i]
             if all(int(keep[c].values[i] - out[c].values[0]) == dlt for c in scols):
@@ -152,8 +159,10 @@ def check_limit_df(case, rec):
                     raise Violation('limit_df:feature-value-changed', 'column %s: %s' % (c, ref.first_diff(a, b)))
         if not case['reset'] and delta != 0:
             raise Violation('limit_df:shifted-without-reset', 'offset %d' % delta)
-        if case['reset'] and delta != (ks or 0):
+        if case['reset'] and not half and delta != (ks or 0):
             raise Violation('limit_df:reset-offset', 'offset %d, window starts at sample %d' % (delta, ks or 0))
+        if case['reset'] and half and delta not in (ks, ks + 1):
+            raise Violation('limit_df:reset-offset', 'offset %d, window starts between samples %d and %d' % (delta, ks, ks + 1))
     else:
         idx = []
     got = set(idx)
@@ -190,7 +199,7 @@ def strat_limit_df(draw, tier):
             'pass_none': draw(st.booleans()),
             'index': draw(st.sampled_from(['range', 'range', 'offset', 'repeated', 'repeated', 'reversed'])),
             'row_order': draw(st.sampled_from(['time', 'time', 'time', 'by-feature', 'reversed'])),
-            'late': draw(st.one_of(st.just(0), st.just(0), st.just(0), st.integers(1, 8)))}
+            'late': draw(st.one_of(st.just(0), st.just(0), st.just(0), st.integers(1, 8))), 'half_sample': draw(st.integers(0, 5)) == 0}
 
 
 # ------------------------------------------------------------------------------------------------ limit_signal
@@ -230,6 +239,15 @@ def check_limit_signal(case, rec):
         start, stop = stop, start
     if start is not None and start < 0:
         start = 0.0
+    if case.get('axis32'):
+        # a single-precision time axis with limits given as double-precision numpy scalars (e.g. read from a float64 event table):
+        # t >= start is then decided exactly, in double precision
+        grid64 = times
+        times = times.astype(np.float32)
+        pick = lambda v, spec: None if v is None else np.float64(grid64[spec[1] % n] if spec[0] == 'on' else v)
+        start, stop = pick(start, case['start']), pick(stop, case['stop'])
+        if start is not None and stop is not None and start > stop:
+            start, stop = stop, start
     t0, s0 = times.copy(), sig.copy()
     kwargs = {}
     if start is not None or case['pass_none']:
@@ -244,9 +262,9 @@ def check_limit_signal(case, rec):
     sig_out, times_out = res
     mask = np.ones(n, dtype=bool)
     if start is not None:
-        mask &= t0 >= start
+        mask &= t0.astype(np.float64) >= np.float64(start)
     if stop is not None:
-        mask &= t0 < stop
+        mask &= t0.astype(np.float64) < np.float64(stop)
     if not np.array_equal(times_out, t0[mask]):
         raise Violation('limit_signal:times', 'start=%r stop=%r: got %d samples [%s..], expected %d' % (
             start, stop, len(times_out), times_out[:1], int(mask.sum())))
@@ -264,7 +282,7 @@ def strat_limit_signal(draw, tier):
     lim = st.one_of(st.none(), st.tuples(st.sampled_from(['on', 'on', 'between', 'zero', 'after']), st.integers(0, 1000)).map(list))
     return {'n': n, 'fs': draw(st.sampled_from(FS)), 'times': draw(st.sampled_from(['regular', 'regular', 'irregular', 'trial-relative', 'clock-reset', 'permuted'])),
             'steps': draw(st.lists(st.integers(1, 5), min_size=120, max_size=120)), 'start': draw(lim), 'stop': draw(lim),
-            'pass_none': draw(st.booleans())}
+            'pass_none': draw(st.booleans()), 'axis32': draw(st.integers(0, 4)) == 0}
 
 
 # ------------------------------------------------------------------------------------------------ split / drop
